@@ -97,6 +97,8 @@ func checkC12(w *World, r *Report) {
 	r.Trusted = []string{"miekg/dns v1.1.34 does not recover panics in handlers and accepts only messages with exactly one question (DefaultMsgAcceptFunc)", "recover() in a deferred closure stops a panic raised later in the same goroutine"}
 	r.Rule("R12.1", "panic containment at both untrusted entry points", 2)
 	r.Rule("R12.9", "an error answer always decodes to an error (the client's callers type-assert the answer when Query reports none)", 1)
+	r.Rule("R12.13", "a session holds no pointer into the listener object: per-session options are copies (one peer's set-options query cannot disturb another session)", 1)
+	c12SessionsShareNoListenerState(w, r, "R12.13")
 	r.Rule("R12.12", "the client indexes the data of a decoded answer only within its length (the handshake probes run outside the decoder's recover)", 3)
 	c12ClientIndexesAnswerDataInBounds(w, r)
 	r.Rule("R12.11", "whatever the answers of the DNS path, a codec detection step of the client leaves a codec stored (the next step dereferences it outside any recover)", 2)
